@@ -186,6 +186,79 @@ pub fn start_hang_monitor(prop: String, limit: Duration) {
     });
 }
 
+// ---------------------------------------------------------------------------------------------
+// aborts (stack overflow, abort(), double panic): not unwinding, so catch_unwind cannot see them
+
+static ABORT_MSG: std::sync::OnceLock<(Vec<u8>, std::ffi::CString, Vec<u8>)> = std::sync::OnceLock::new();
+
+extern "C" fn on_abort(_sig: libc::c_int) {
+    // async-signal-safe calls only: the process is dying on an alternate stack
+    if let Some((line, path, body)) = ABORT_MSG.get() {
+        unsafe {
+            let fd = libc::open(path.as_ptr(), libc::O_CREAT | libc::O_WRONLY | libc::O_TRUNC, 0o644);
+            if fd >= 0 {
+                libc::write(fd, body.as_ptr() as *const libc::c_void, body.len());
+                libc::close(fd);
+            }
+            libc::write(1, line.as_ptr() as *const libc::c_void, line.len());
+        }
+    }
+    unsafe { libc::_exit(1) }
+}
+
+/// A process abort inside the code under test (stack overflow from unbounded recursion, abort())
+/// is a violation of every no-panic property and at least "no verdict" for the others; report it
+/// as a VIOLATION of the running property with a generic artefact instead of dying on a signal.
+/// Checks that expect such failures run the risky cases through `run_isolated` instead, which
+/// names the case.
+pub fn install_abort_handler(prop: &str, verif_root: &str) {
+    let path = format!("{}/replays/{}-abort.json", verif_root, prop);
+    let _ = std::fs::create_dir_all(format!("{}/replays", verif_root));
+    let body = format!("{{\"property\":\"{}\",\"signature\":\"{}|process-abort\",\"detail\":\"the process aborted (stack overflow or abort()) inside the code under test; rerun the check to reproduce\",\"case\":{{\"kind\":\"abort\"}}}}", prop, prop);
+    let line = format!("VIOLATION property={} replay={}\n  signature: {}|process-abort\n  detail: the process aborted (stack overflow or abort()) inside the code under test\n", prop, path, prop);
+    let _ = ABORT_MSG.set((line.into_bytes(), std::ffi::CString::new(path).unwrap(), body.into_bytes()));
+    unsafe {
+        libc::signal(libc::SIGABRT, on_abort as usize);
+    }
+}
+
+/// Run one recorded case in a child process (`mc --replay <file>`): Ok(signatures) on exit 0/1,
+/// Err(description) when the child died on a signal or failed otherwise.
+pub fn run_isolated(verif_root: &str, prop: &str, tag: &str, case: &serde_json::Value) -> Result<Vec<(String, String)>, String> {
+    let _ = std::fs::create_dir_all(format!("{}/replays", verif_root));
+    let path = format!("{}/replays/{}-iso-{}.json", verif_root, prop, tag);
+    let body = serde_json::json!({"property": prop, "signature": format!("{}|isolated", prop), "detail": "", "case": case});
+    std::fs::write(&path, serde_json::to_string(&body).unwrap()).map_err(|e| format!("cannot write {}: {}", path, e))?;
+    let exe = std::env::current_exe().map_err(|e| format!("{}", e))?;
+    let out = std::process::Command::new(exe).arg("--replay").arg(&path).env("VERIF_ROOT", verif_root).env("MC_CHILD", "1").output().map_err(|e| format!("spawn: {}", e))?;
+    let stdout = String::from_utf8_lossy(&out.stdout).to_string();
+    match out.status.code() {
+        Some(0) => {
+            let _ = std::fs::remove_file(&path);
+            Ok(vec![])
+        }
+        Some(1) => {
+            let mut sigs = Vec::new();
+            let mut cur: Option<String> = None;
+            for l in stdout.lines() {
+                if let Some(s) = l.trim().strip_prefix("signature: ") {
+                    cur = Some(s.to_string());
+                } else if let Some(d) = l.trim().strip_prefix("detail: ") {
+                    if let Some(s) = cur.take() {
+                        sigs.push((s, d.to_string()));
+                    }
+                }
+            }
+            if sigs.is_empty() {
+                sigs.push((format!("{}|isolated-violation", prop), truncate(&stdout, 400)));
+            }
+            let _ = std::fs::remove_file(&path);
+            Ok(sigs)
+        }
+        other => Err(format!("child ended with {:?} ({}); stderr: {}", other, out.status, truncate(&String::from_utf8_lossy(&out.stderr), 300))),
+    }
+}
+
 /// Run `f`, converting a panic into `Err(PanicInfo)`.
 pub fn guarded<R>(f: impl FnOnce() -> R) -> Result<R, PanicInfo> {
     let outer = GUARD_DEPTH.with(|d| {
